@@ -531,9 +531,9 @@ package keyvalue
 //@   ensures "n-range" 0 <= n && n <= old(blob.blobLen(p))
 //@   ensures "fail-unchanged" implies(err != nil && n == 0 && (old(fIsDir(f)) || off < 0 || old(hDataErr(f)) != nil), implies(old(hDataErr(f)) == nil, sameContent(old(hData(f)))))
 //@   ensures "inv" fileInv(f) && f.offset == old(f.offset) && f.closed == old(f.closed)
-//@   ensures "accepted" [C14] implies(err == nil && n > 0 && isSerial(f.fileData.fs), old(storeGetErr(fsStore(f.fileData.fs), f.fileData.path)) == nil &&
-//@                     old(retW("keyvalue.(Store).Set", 0, storeGetW(fsStore(f.fileData.fs), f.fileData.path), fsStore(f.fileData.fs), nil, f.fileData.path, f.fileData)) == nil ||
-//@                     errIs(old(storeGetErr(fsStore(f.fileData.fs), f.fileData.path)), hackpadfs.ErrNotExist))
+//@   ensures "accepted" [C14] implies(err == nil && n > 0 && isSerial(f.fileData.fs), world() == old(storeGetW(fsStore(f.fileData.fs), f.fileData.path)) ||
+//@                     (old(retW("keyvalue.(Store).Set", 0, storeGetW(fsStore(f.fileData.fs), f.fileData.path), fsStore(f.fileData.fs), nil, f.fileData.path, f.fileData)) == nil &&
+//@                      world() == old(worldAfterW("keyvalue.(Store).Set", storeGetW(fsStore(f.fileData.fs), f.fileData.path), fsStore(f.fileData.fs), nil, f.fileData.path, f.fileData))))
 //@   ensures "namespace" [C17 C03] implies(isMem(f.fileData.fs), memSameExcept(f.fileData.fs, f.fileData.path))
 //@   ensures "no-resurrect" [C17] implies(isMem(f.fileData.fs) && !old(kvHas(f.fileData.fs, f.fileData.path)), !kvHas(f.fileData.fs, f.fileData.path))
 //@   ensures "data-ok" hDataOK(f)
@@ -636,7 +636,8 @@ package keyvalue
 //@                     *f.fileData.modeOverride == (old(ite(f.fileData.modeOverride != nil, *f.fileData.modeOverride, modeOf(fRec(f)))) & ^chmodBits) | (mode & chmodBits))
 //@   ensures "namespace" [C17 C03] implies(isMem(f.fileData.fs), memSameExcept(f.fileData.fs, f.fileData.path))
 //@   ensures "no-resurrect" [C17] implies(isMem(f.fileData.fs) && !old(kvHas(f.fileData.fs, f.fileData.path)), !kvHas(f.fileData.fs, f.fileData.path))
-//@   ensures "stored" [C01] implies(isMem(f.fileData.fs) && !f.closed && old(kvHas(f.fileData.fs, f.fileData.path)) && old(fdDataErr(f.fileData)) == nil, err == nil &&
+//@   ensures "stored" [C01] implies(isMem(f.fileData.fs) && !f.closed && old(kvHas(f.fileData.fs, f.fileData.path)) && old(fdDataErr(f.fileData)) == nil &&
+//@                     old(memIsDir(f.fileData.fs, f.fileData.path)) == (old(fdMode(f.fileData)) & hackpadfs.ModeDir != 0), err == nil &&
 //@                     memRec(f.fileData.fs, f.fileData.path).mode == *f.fileData.modeOverride)
 //@   ensures "inv" fileInv(f) && f.offset == old(f.offset) && f.closed == old(f.closed)
 //@   ensures "keeps-name" [C03 C17] implies(isMem(f.fileData.fs) && old(kvHas(f.fileData.fs, f.fileData.path)), kvHas(f.fileData.fs, f.fileData.path))
